@@ -5,10 +5,11 @@ from pyvc.spec import REGISTRY
 from pyvc import smt
 
 def sigcases(con):
-    names = list(con.sig)
-    alts = [con.sig[n].alternatives() for n in names]
-    for combo in itertools.product(*alts):
-        yield dict(zip(names, combo))
+    for sig in con.sigs:
+        names = list(sig)
+        alts = [sig[n].alternatives() for n in names]
+        for combo in itertools.product(*alts):
+            yield dict(zip(names, combo))
 
 def main():
     importlib.import_module(sys.argv[1])
@@ -16,10 +17,13 @@ def main():
     for t in targets:
         con = REGISTRY[t]
         if con.trusted: continue
-        for sc in sigcases(con):
+        import os
+        only = os.environ.get("PYVC_CASE")
+        for sc, case in [(sc, cs) for sc in sigcases(con) for cs in (list(con.cases) or [None])]:
+            if only and case != only: continue
             t0=time.time()
             try:
-                en = Engine(con, sc).run()
+                en = Engine(con, sc, case=case).run()
             except Unsupported as e:
                 print("UNDECIDED", t, e); continue
             obs = list(en.obligations.values())
